@@ -18,6 +18,9 @@ type SpecOpts struct {
 	MaxPaths int
 	// Rich forces at least one shared parameter, one shared response and one allOf chain.
 	Rich bool
+	// CaseTwinParams lets an operation declare two parameters in the same location whose names
+	// differ only by letter case (distinct parameters in Swagger 2.0).
+	CaseTwinParams bool
 }
 
 // OpInfo describes one generated operation.
@@ -411,6 +414,12 @@ func (g *specGen) operation(path, method string, holders []string, pathLevel boo
 			p["required"] = true
 		}
 		params = append(params, p)
+		if twin := swapCase(nm); g.o.CaseTwinParams && twin != nm && !used[in+"#"+twin] && g.coin("casetwin", 3) {
+			used[in+"#"+twin] = true
+			q := g.simpleType(2)
+			q["name"], q["in"] = twin, in
+			params = append(params, q)
+		}
 	}
 	if len(g.info.SharedParams) > 0 && (g.coin("useshared", 2) || (g.o.Rich && !g.info.UsedSharedParam)) {
 		k := g.info.SharedParams[rapid.IntRange(0, len(g.info.SharedParams)-1).Draw(t, "sharedidx")]
@@ -459,3 +468,17 @@ func (g *specGen) operation(path, method string, holders []string, pathLevel boo
 
 // Number is a convenience constructor for JSON numbers in documents.
 func Number(i int) json.Number { return json.Number(strconv.Itoa(i)) }
+
+// swapCase flips the case of every ASCII letter.
+func swapCase(s string) string {
+	b := []byte(s)
+	for i, c := range b {
+		switch {
+		case c >= 'a' && c <= 'z':
+			b[i] = c - 32
+		case c >= 'A' && c <= 'Z':
+			b[i] = c + 32
+		}
+	}
+	return string(b)
+}
